@@ -223,7 +223,7 @@ impl Known {
 // ------------------------------------------------------------------------------------------
 // structural minimiser (second shrinking stage, after proptest's own)
 
-fn arg_candidates(a: &Arg, out: &mut Vec<Arg>) {
+fn arg_candidates(a: &Arg, out: &mut Vec<Arg>, depth: usize) {
     match a {
         Arg::N(v) => {
             for c in digit_candidates(v) {
@@ -275,14 +275,18 @@ fn arg_candidates(a: &Arg, out: &mut Vec<Arg>) {
             }
         }
         Arg::L(v) => {
-            for i in 0..v.len().min(64) {
-                let mut c = v.clone();
-                c.remove(i);
-                out.push(Arg::L(c));
+            // elements of a top-level list (a history) may be dropped; a nested list is a record
+            // with a fixed shape, so only its fields are simplified
+            if depth == 0 {
+                for i in 0..v.len().min(64) {
+                    let mut c = v.clone();
+                    c.remove(i);
+                    out.push(Arg::L(c));
+                }
             }
             for i in 0..v.len().min(32) {
                 let mut sub = vec![];
-                arg_candidates(&v[i], &mut sub);
+                arg_candidates(&v[i], &mut sub, depth + 1);
                 for s in sub.into_iter().take(40) {
                     let mut c = v.clone();
                     c[i] = s;
@@ -370,7 +374,7 @@ pub fn minimise(case: &Case, fails: &dyn Fn(&Case) -> bool, max_steps: usize) ->
         let wcur = case_weight(&cur);
         for ai in 0..cur.args.len() {
             let mut cands = vec![];
-            arg_candidates(&cur.args[ai], &mut cands);
+            arg_candidates(&cur.args[ai], &mut cands, 0);
             for cand in cands {
                 steps += 1;
                 if steps > max_steps {
